@@ -147,6 +147,8 @@ impl Searcher {
         beta: i32,
         mut context: SearchContext,
     ) -> SearchResult {
+        #[cfg(flounder_verif)]
+        crate::verif_seam::on_node(crate::verif_seam::NODE_MAIN);
         self.timer.increment_nodes();
         let original_alpha = alpha;
 
@@ -224,6 +226,8 @@ impl Searcher {
     /// This prevents the "horizon effect" where the engine stops searching right
     /// before a capture sequence, leading to bad evaluations.
     fn search_until_quiet(&mut self, board: &Board, mut alpha: i32, beta: i32) -> i32 {
+        #[cfg(flounder_verif)]
+        crate::verif_seam::on_node(crate::verif_seam::NODE_QUIESCENCE);
         self.timer.increment_nodes();
         let currently_in_check = self.move_generator.is_in_check(board);
 
